@@ -5,10 +5,15 @@ EXTENDS MC_MapGeom
 ASSUME A_ActiveComposition == C14_LawActiveComposition(5) /\ C14_LawActiveComposition(6)
 ASSUME A_InverseRestores == C14_LawInverseRestores(5) /\ C14_LawInverseRestores(6)
 ASSUME A_CentreFixed == C14_LawCentreFixed(5) /\ C14_LawCentreFixed(6)
-ASSUME A_TemplatesChiral == Chiral(Tmpl8) /\ Chiral(Tmpl6) /\ Chiral(Tmpl8b)
+ASSUME A_TemplatesChiral == Chiral(Tmpl8) /\ Chiral(Tmpl6) /\ Chiral(Tmpl8b) /\ Chiral(Tmpl7)
 \* the templates of a list really differ after thresholding
 ASSUME A_TemplatesDiffer == HiOffsets(Tmpl8) # HiOffsets(Tmpl8b) /\ HiOffsets(Tmpl8) # HiOffsets(Tmpl6) /\ HiOffsets(Tmpl6) # HiOffsets(Tmpl8b)
 \* quarter turns about z used by the symmetrisation are the rotations by k * 360/n
 ASSUME A_ZTurns == /\ ZTurn(4, 1) = Rz1 /\ ZTurn(2, 1) = Mul(Rz1, Rz1) /\ ZTurn(4, 4) = Id /\ ZTurn(2, 2) = Id
                    /\ \A k \in 1..4 : ZAxis(ZTurn(4, k)) = <<0, 0, 1>>
+\* the fractional window rule restricted to integral centres and even shapes is the integral rule
+ASSUME A_WStartQExtendsWStart == \A c \in -9..12 : \A S \in {2, 4, 8} : \A u \in {1, 8, 10} :
+                                    WStartQ(<<u * c, u * c, u * c>>, <<S, S, S>>, u) = WStart(<<c, c, c>>, <<S, S, S>>)
+\* floor, not truncation: just left of voxel 0 the start is one lower
+ASSUME A_WStartQFloors == WStartQ(<<-4, -1, 4>>, <<8, 8, 8>>, 8) = <<-5, -5, -4>> /\ WStartQ(<<5, 4, 3>>, <<7, 7, 7>>, 8) = <<-3, -3, -4>>
 =============================================================================
